@@ -77,6 +77,9 @@ for f in ("f64", "f32"):
         lemma="L-FILL-EDGE", inst=f, unwind=4, est_s=240, cap_s=1800, mem_gb=16,
         domain="one edge a->b, both endpoints on the N x N lattice window (either direction, possibly collapsed), any tags, fresh or arbitrary previous box; real SweepEvent::cmp, real BinaryHeap",
         claim="process_polygon on one edge: collapsed edge creates nothing and leaves the box; otherwise exactly one mutually linked pair, left = lexicographically smaller endpoint whichever way the edge is written, tags copied, box extended by exactly the start point")
+reg("fill_two_edges_f64", file="fq/mod.rs", props={"C13": "quick", "C07": "quick", "C03": "thorough", "C04": "thorough"}, lemma="L-FILL-EDGE", inst="f64", unwind=6, est_s=600, cap_s=2700, mem_gb=24,
+    domain="two consecutive edges a->b->c of one ring, all three vertices on the 3 x 3 lattice window (any of the edges may be collapsed), fresh box; real SweepEvent::cmp, real BinaryHeap",
+    claim="process_polygon handles every edge of a ring on its own: one non-degenerate pair per non-degenerate edge wherever the repeated vertices are; box = hull of the start points of the non-degenerate edges")
 for _nm in ("2h_2h", "1_1h", "0_2", "2_0"):
   reg(f"fill_ids_{_nm}", file="fq/mod.rs", props={"C13": "quick", "C07": "quick", "C05": "quick"}, lemma="L-FILL-IDS", inst="f64", unwind=4, est_s=120, cap_s=1200, mem_gb=16,
     domain=f"operand shapes {_nm} (polygons per operand, h = with a hole), all four operations symbolic; process_polygon replaced by a recorder",
@@ -221,6 +224,17 @@ def _seq(name, tier, est):
 for q in ("get", "next", "prev", "minmax", "shape", "refstab", "iter"):
     _seq(f"sp_ii_{q}", "quick", 120)
 _seq("sp_ir_get", "quick", 100); _seq("sp_ir_shape", "quick", 100)
+for _nm in ("left_chain", "right_chain", "zigzag_lr", "zigzag_rl", "balanced"):
+    reg(f"sp_refstab3_{_nm}", props={"C17": "quick"}, est_s=200, cap_s=1500,
+        claim=f"3-node tree of shape {_nm}: after two lookups of arbitrary kind and key every stored key is still at its old address (only box pointers move), contents unchanged",
+        **dict(SEQ, unwind=4, domain="concrete initial shape (all five 3-node shapes have a harness), lookup kinds and keys symbolic"))
+for _nm in ("left_chain", "right_chain", "zigzag_lr", "zigzag_rl", "balanced"):
+    reg(f"sp_update3_{_nm}", props={"C17": "quick"}, est_s=200, cap_s=1500,
+        claim=f"3-node tree of shape {_nm}: one insert or remove with an arbitrary key returns what the reference returns and leaves a BST holding exactly the reference entries",
+        **dict(SEQ, unwind=5, domain="concrete initial shape (all five 3-node shapes have a harness), update kind, key and value symbolic"))
+    reg(f"sp_query3_{_nm}", props={"C17": "quick"}, est_s=200, cap_s=1500,
+        claim=f"3-node tree of shape {_nm}: get / next / prev with an arbitrary key agree with the reference and leave the contents intact",
+        **dict(SEQ, unwind=5, domain="concrete initial shape (all five 3-node shapes have a harness), query kind and key symbolic"))
 reg("sp_getmut_index", props={"C17": "quick"}, est_s=200, cap_s=1200, claim="get_mut, Index and IndexMut after two inserts with arbitrary keys agree with the reference", **SEQ)
 reg("sp_extend_clear", props={"C17": "quick"}, est_s=300, cap_s=1500, claim="extend (incl. duplicate keys) then clear then reuse, against the reference; BST shape after extend", **dict(SEQ, unwind=4))
 reg("sp_set_wrappers", props={"C17": "quick"}, est_s=300, cap_s=1500, claim="SplaySet insert/contains/find/next/prev/min/max/len/remove agree with the reference set", **dict(SEQ, inst="SplaySet<u8, closure>"))
@@ -246,14 +260,17 @@ QUICK = {
     "C04": ["int_classify_f32", "pi_point", "iter_order_n3", "iter_order_n4", "divide_contract_f64"],
     "C05": ["cf_relational_plain", "cf_relational_same", "cf_relational_diff", "fill_ids_2h_2h", "fill_ids_1_1h"],
     "C06": ["dispatch_predicate", "dispatch_empty_subject", "dispatch_empty_clipping", "dispatch_empty_both", "dispatch_union_multi1_multi1", "cf_twins_nonvert_pp1", "pi_overlap_horizontal_left", "pi_overlap_vertical_left"],
-    "C07": ["dispatch_forward_poly_multi2", "dispatch_forward_multi2_multi1", "dispatch_forward_multi2_poly", "dispatch_named_methods", "fill_edge_f64", "fill_ids_2h_2h", "fill_ids_1_1h", "fill_ids_0_2", "fill_ids_2_0"],
+    "C07": ["dispatch_forward_poly_multi2", "dispatch_forward_multi2_multi1", "dispatch_forward_multi2_poly", "dispatch_named_methods", "fill_edge_f64", "fill_two_edges_f64", "fill_ids_2h_2h", "fill_ids_1_1h", "fill_ids_0_2", "fill_ids_2_0"],
     "C08": ["int_scale_f32"],
     "C10": ["nextafter_f64", "nextafter_f32", "int_classify_f32", "int_agree"],
-    "C13": ["fill_edge_f64", "fill_ids_2h_2h", "fill_ids_0_2", "divide_contract_f64", "pi_none", "pi_point", "pi_overlap_horizontal_left", "pi_overlap_vertical_partial", "pi_overlap_vertical_contain", "sweep_protocol_mid_removed"],
+    "C13": ["fill_edge_f64", "fill_two_edges_f64", "fill_ids_2h_2h", "fill_ids_0_2", "divide_contract_f64", "pi_none", "pi_point", "pi_overlap_horizontal_left", "pi_overlap_vertical_partial", "pi_overlap_vertical_contain", "sweep_protocol_mid_removed"],
     "C14": ["cf_base", "cf_step_same_nonvert", "cf_step_diff_nonvert", "cf_step_same_vert", "cf_step_diff_vert", "cf_twins_nonvert_pp0", "cf_twins_nonvert_pp1", "cf_twins_nonvert_pp2", "cf_twins_vert_pp0", "cf_twins_vert_pp1"],
     "C15": ["evord_ll_f64", "evord_lr_f64", "evord_rr_f64", "segord_pair_f32_n3"],
     "C16": ["int_classify_f32", "int_swap_f32", "divide_contract_f64", "divide_ulp_f64", "pi_none", "pi_point", "pi_overlap_vertical_left", "pi_overlap_vertical_right", "pi_overlap_vertical_partial", "pi_overlap_vertical_contain", "pi_overlap_horizontal_partial"],
-    "C17": ["sp_ii_get", "sp_ii_next", "sp_ii_prev", "sp_ii_minmax", "sp_ii_shape", "sp_ii_refstab", "sp_ii_iter", "sp_ir_get", "sp_ir_shape", "sp_getmut_index", "sp_extend_clear", "sp_set_wrappers"],
+    "C17": ["sp_ii_get", "sp_ii_next", "sp_ii_prev", "sp_ii_minmax", "sp_ii_shape", "sp_ii_refstab", "sp_ii_iter", "sp_ir_get", "sp_ir_shape", "sp_getmut_index", "sp_extend_clear", "sp_set_wrappers",
+            "sp_refstab3_left_chain", "sp_refstab3_right_chain", "sp_refstab3_zigzag_lr", "sp_refstab3_zigzag_rl", "sp_refstab3_balanced",
+            "sp_update3_left_chain", "sp_update3_right_chain", "sp_update3_zigzag_lr", "sp_update3_zigzag_rl", "sp_update3_balanced",
+            "sp_query3_left_chain", "sp_query3_right_chain", "sp_query3_zigzag_lr", "sp_query3_zigzag_rl", "sp_query3_balanced"],
 }
 
 PROPS = {}
